@@ -8,6 +8,7 @@ recorded finding only by its exact symptom (module + failing clause + message), 
 failure of the same module is still a violation.
 -/
 import Irismod.Sdk.Line
+import Driver.HtlcDoc
 
 open Irismod.Line
 
@@ -36,9 +37,20 @@ def knownClasses : List (String × String × String × String) := [
   ("record", "fixpoint", "ctr=", "F-gen-3"),
   ("record", "queries_same", "ctr=", "F-gen-3")]
 
+/-- F-gen-5 (htlc import refused after a parameter update made the parameters inconsistent with the
+state) is attributed only when the Lean model's `InitGenesis` (Model/HtlcGenesis.lean) panics on the
+SAME exported document, which the harness prints next to the failed import: a panic of the real
+`InitGenesis` that the model does not predict is unclassified, whatever its message says. -/
+def modelConfirms (module key obs : String) : Bool :=
+  if module = "htlc" && key = "F-gen-5" then
+    match Driver.HtlcDoc.parseDoc (tokens obs) with
+    | some g => Driver.HtlcDoc.modelRefuses g
+    | none => false
+  else true
+
 def classify (module clause obs : String) : String :=
   match knownClasses.find? (fun (m, c, sub, _) => m = module && c = clause && (sub = "" || (obs.splitOn sub).length > 1)) with
-  | some (_, _, _, k) => " class=" ++ k
+  | some (_, _, _, k) => if modelConfirms module k obs then " class=" ++ k else ""
   | none => ""
 
 def readLines (p : String) : IO (Array String) := do
